@@ -315,7 +315,11 @@ void AnalyzerInformation::reopen(const std::string &buildDir, const std::string 
     ifs.close();
 
     std::string content = iss.str();
-    content.resize(content.find("</analyzerinfo>"));
+    const std::string::size_type pos = content.find("</analyzerinfo>");
+    // the file is incomplete (i.e. the process which was writing it has been killed) - leave it alone so it is discarded by the next run
+    if (pos == std::string::npos)
+        return;
+    content.resize(pos);
 
     mOutputStream.open(analyzerInfoFile, std::ios::trunc);
     mOutputStream << content;
